@@ -145,6 +145,10 @@ func (m *refModel) stateParent(v uint64) (node.Root, kv.Contents) {
 				return r.root, r.contents
 			}
 		}
+		// committing ahead of finalization: the parent is the only candidate of v-1
+		if sc := m.candsOf(v-1, node.RootTypeState); len(sc) == 1 && v-1 > m.last {
+			return sc[0].root, sc[0].contents
+		}
 	}
 	var e node.Root
 	e.Empty()
@@ -194,17 +198,23 @@ func (e *env) applicable(l L) bool {
 		if m.mp != nil {
 			return false
 		}
+		next := m.last + 1
 		if m.last == 0 && len(m.finalized) == 0 {
-			return l.V == 1
+			next = 1
 		}
-		return l.V == m.last+1
+		if l.V == next {
+			// no further candidates once a child of the only candidate has been committed ahead
+			return len(m.cands[next+1]) == 0
+		}
+		// one version ahead of finalization, as a child of the single candidate of the next version
+		return l.V == next+1 && l.Type != "io" && len(m.candsOf(next, node.RootTypeState)) == 1 && m.ncommits[next] == 1
 	case "finalize":
 		if m.mp != nil {
 			return false
 		}
 		sc := m.candsOf(l.V, node.RootTypeState)
 		ic := m.candsOf(l.V, node.RootTypeIO)
-		return l.V == m.last+1 && l.Choice < len(sc) && l.IO <= len(ic) && len(sc) > 0
+		return (l.V == m.last+1 || (m.last == 0 && len(m.finalized) == 0 && l.V == 1)) && l.Choice < len(sc) && l.IO <= len(ic) && len(sc) > 0
 	case "prune":
 		return m.mp == nil && l.V == m.earliest && m.last > l.V && l.V > 0
 	case "mpstart":
